@@ -77,6 +77,18 @@ def value_norm(tokens):
     return tokens
 
 
+def canon_reply(name, toks):
+    """HGETALL and HSCAN hand their page over as a Go map: the order of the field/value pairs is random"""
+    def sort_pairs(l):
+        prs = sorted((l[i], l[i + 1]) for i in range(0, len(l) - 1, 2))
+        return [x for p in prs for x in p]
+    if name == "HGETALL" and toks and toks[0].startswith("A"):
+        return [toks[0]] + sort_pairs(toks[1:])
+    if name == "HSCAN" and len(toks) >= 3 and toks[0] == "A2":
+        return toks[:3] + sort_pairs(toks[3:])
+    return toks
+
+
 def compare_runs(with_case, without_case, ops_only=True):
     """replies of the command steps pairwise, then the final abstract states"""
     out = []
@@ -84,7 +96,7 @@ def compare_runs(with_case, without_case, ops_only=True):
     b = [s for s in without_case["steps"] if s["conn"] >= 0]
     n = min(len(a), len(b))
     for i in range(n):
-        if a[i]["reply"] != b[i]["reply"] and a[i]["name"] not in ("DBSIZE",):
+        if canon_reply(a[i]["name"], a[i]["reply"]) != canon_reply(b[i]["name"], b[i]["reply"]) and a[i]["name"] not in ("DBSIZE",):
             idx = with_case["steps"].index(a[i]) + 1
             out.append({"case": with_case["id"], "step": idx, "signature": "EVICT/reply:%s" % a[i]["name"],
                         "text": "with passes: %s   without: %s" % (" ".join(a[i]["reply"])[:80], " ".join(b[i]["reply"])[:80])})
@@ -110,6 +122,8 @@ def compare_runs(with_case, without_case, ops_only=True):
         vb = (fb[k][0], value_norm(fb[k][1])) if k in fb else None
         if va is not None and vb is not None and va[1] == vb[1] and same_deadline(va[0], vb[0]):
             continue
+        if va is not None and vb is not None and "cold" in (va[1], vb[1]) and same_deadline(va[0], vb[0]):
+            continue    # not loaded at the end of one run (no final probe in a shrunk history): the replies have been compared
         if va != vb:
             out.append({"case": with_case["id"], "step": len(with_case["steps"]), "signature": "EVICT/state",
                         "text": "key %s with passes: %s   without: %s" % (k, str(va)[:90], str(vb)[:90])})
